@@ -166,6 +166,13 @@ class Net:
         self.has_const = any(is_const(i) for _n, _o, ins in self.blocks for i in ins)
         self.uses_event_edge = any(i in self.evmap for _n, _o, ins in self.blocks for i in ins)
         self._sat_cache = {}
+        # number of blocks on the longest path (event edges included); 0 for a cyclic network
+        self.depth = 0
+        if self.acyclic:
+            dep = [0] * self.nblk
+            for k in self.topo:
+                dep[k] = 1 + max((dep[p] for p in self.pred_all[k]), default=0)
+            self.depth = max(dep)
 
     def _toposort(self, preds):
         """Topological order of the blocks or None when there is a cycle."""
@@ -207,7 +214,18 @@ class Net:
         key = tuple(srcvals[s] for s in self.src_names)
         if key not in self._sat_cache:
             found = None
-            for bits in range(1 << self.nblk):
+            if self.acyclic:
+                # exactly one candidate: evaluate in topological order (no search needed)
+                bits = 0
+                for k in self.topo:
+                    vals = [srcvals[c[1]] if c[0] == 's' else c[1] if c[0] == 'c'
+                            else bool(bits >> c[1] & 1) != c[2] for c in self.cins[k]]
+                    if apply_op(self.blocks[k][1], vals):
+                        bits |= 1 << k
+                candidates = [bits]
+            else:
+                candidates = range(1 << self.nblk)
+            for bits in candidates:
                 if self.consistent(srcvals, bits):
                     found = bits
                     break
@@ -219,15 +237,35 @@ class Net:
         """
         Upper bound of the number of block evaluations in one burst of an acyclic network:
         sum over blocks of the number of paths from the changed sources (event edges
-        included). In the initial burst every block is evaluated once on its own account in
-        addition. Returns (total, per-block list) or None for a cyclic network.
+        included). Returns (total, per-block list) or None for a cyclic network.
+
+        Start-up run: every block is pending and is evaluated once on its own account; it is
+        evaluated again only for changes of an input block that happen AFTER its first
+        evaluation. The simulator prefers blocks without pending direct predecessors (the
+        mechanism this property is anchored to), and an acyclic network always has one, so a
+        block is first evaluated after each of its input CBlocks has been evaluated at least
+        once: of the b(P) evaluations of an input block P at most b(P)-1 can change it
+        afterwards. An event-fed Input can change on every evaluation of its sender, whenever
+        that happens. Hence  b(B) = 1 + sum_P (b(P) - 1) + sum_X b(sender(X)):  one evaluation
+        per block in a network without event edges (a chain has one path to every block, a
+        DAG is evaluated in dependency order), more only behind event edges.
         """
         if not self.acyclic:
             return None
         cnt = [0] * self.nblk
+        if initial:
+            for k in self.topo:
+                total = 1
+                for i in set(self.blocks[k][2]):
+                    if i in self.bidx:
+                        total += cnt[self.bidx[i]] - 1
+                    elif i in self.evmap:
+                        total += cnt[self.bidx[self.evmap[i]['frm']]]
+                cnt[k] = total
+            return sum(cnt), cnt
         for k in self.topo:
             nodes = set(self.blocks[k][2])      # distinct input blocks
-            total = 1 if initial else 0
+            total = 0
             for i in nodes:
                 if i in CONST_NAMES:
                     continue            # a constant never changes
@@ -275,12 +313,16 @@ def gen_net(rng, tier, index):
         nblk = rng.randint(10, 11)
     else:
         nblk = rng.choice([1, 2, 3, 3, 4, 4, 5, 5, 6, 6, 7, 8, 9])
+    # deep and narrow: a chain of 6-14 blocks with at most a few taps
+    deep = kind == 'acyclic' and index >= 1500 and rng.random() < 0.2
+    if deep:
+        nblk = rng.randint(6, 14)
     nsrc = rng.choice([1, 1, 2, 2, 3])
     srcs = [{'name': f"s{i}", 'init': rng.random() < 0.5} for i in range(nsrc)]
     names = [f"b{i}" for i in range(nblk)]
     evin = []
     ev_avail = {}       # evin name -> index of the feeding block (forward edges of acyclic nets)
-    if kind == 'acyclic' and nblk >= 2 and rng.random() < 0.45:
+    if kind == 'acyclic' and nblk >= 2 and not deep and rng.random() < 0.45:
         for _ in range(rng.choice([1, 1, 2])):
             j = rng.randrange(nblk - 1)
             ename = f"x{len(evin)}"
@@ -294,7 +336,31 @@ def gen_net(rng, tier, index):
         v = rng.random() < 0.5
         return v if rng.random() < 0.7 else {'const': v}
     blocks = []
-    fan_shape = kind == 'acyclic' and nblk >= 4 and rng.random() < 0.3
+    if deep:
+        # src -> n0 -> n1 -> ... : exactly one path to every block of the bare chain; a few
+        # stages get a second input (a source, a constant, a block two or more stages back),
+        # and the chain may pass through one event edge
+        src = rng.choice(srcs)['name']
+        prev = src
+        taps = rng.choice([0, 0, 1, 2, 3])
+        tap_at = set(rng.sample(range(nblk), taps))
+        ev_at = rng.randrange(1, nblk) if rng.random() < 0.2 else None
+        for k in range(nblk):
+            if k == ev_at:
+                evin.append({'name': 'x0', 'from': prev, 'inv': rng.random() < 0.3,
+                             'init': rng.random() < 0.5, 'hop': rng.random() < 0.25})
+                prev = 'x0'
+            if k in tap_at:
+                r = rng.random()
+                tap = (rng.choice(srcs)['name'] if r < 0.5 or k < 2 else
+                       rnd_const() if r < 0.65 else names[rng.randrange(k - 1)])
+                ins = [prev, tap]
+                rng.shuffle(ins)
+                blocks.append({'name': names[k], 'op': rng.choice(['xor', 'and']), 'ins': ins})
+            else:
+                blocks.append({'name': names[k], 'op': rng.choice(['not', 'id']), 'ins': [prev]})
+            prev = names[k]
+    fan_shape = kind == 'acyclic' and not deep and nblk >= 4 and rng.random() < 0.3
     if fan_shape:
         # a source reaches k terminal blocks directly and through a chain of 2-3 blocks (or a
         # chain that ends in an event edge): few paths per block, but the terminals may be
@@ -316,7 +382,7 @@ def gen_net(rng, tier, index):
                 ins.append(rng.choice([s['name'] for s in srcs]))
             rng.shuffle(ins)
             blocks.append({'name': names[k], 'op': rng.choice(['and', 'xor', 'xor']), 'ins': ins})
-    ladder = kind == 'acyclic' and not fan_shape and nblk >= 5 and rng.random() < 0.3
+    ladder = kind == 'acyclic' and not (fan_shape or deep) and nblk >= 5 and rng.random() < 0.3
     if ladder:
         # reconvergent fan-in with unequal path lengths: a chain src -> c1 -> ... -> cm and one
         # or two blocks z tapping every other chain block (taps are not directly connected with
@@ -337,7 +403,7 @@ def gen_net(rng, tier, index):
             rng.shuffle(ins)
             blocks.append({'name': names[m + z], 'op': rng.choice(['xor', 'xor', 'and']),
                            'ins': ins})
-    for k in range(0 if fan_shape or ladder else nblk):
+    for k in range(0 if fan_shape or ladder or deep else nblk):
         op = rng.choice(['not', 'id', 'and', 'and', 'xor', 'xor'] if dense
                         else ['not', 'not', 'id', 'and', 'xor'])
         fan = 1 if op in ('not', 'id') else rng.choice([1, 2, 2, 3] if not dense else [2, 2, 3, 3])
